@@ -17,11 +17,15 @@ type vRefEntry struct {
 type vRef struct {
 	dist    Distance
 	entries []vRefEntry
+	// score the index kind defines for a stored entry (default: the metric distance)
+	scoreFn func(pq []float32, e *vRefEntry) float32
 }
 
 func vNewRef(kind DistanceKind) *vRef {
 	d, _ := NewDistance(kind)
-	return &vRef{dist: d}
+	m := &vRef{dist: d}
+	m.scoreFn = func(pq []float32, e *vRefEntry) float32 { return m.dist.Calculate(pq, e.vec) }
+	return m
 }
 
 func (m *vRef) liveCount() int {
@@ -88,7 +92,8 @@ type vElig struct {
 // threshold (a threshold <= 0 is "no threshold").
 func (m *vRef) eligible(pq []float32, th float32, filt []uint32) []vElig {
 	var E []vElig
-	for _, e := range m.entries {
+	for i := range m.entries {
+		e := &m.entries[i]
 		if !e.live {
 			continue
 		}
@@ -103,7 +108,7 @@ func (m *vRef) eligible(pq []float32, th float32, filt []uint32) []vElig {
 				continue
 			}
 		}
-		d := m.dist.Calculate(pq, e.vec)
+		d := m.scoreFn(pq, e)
 		vAssume(d == d) // finite vectors: NaN only through overflow (Inf-Inf), outside the property
 		if th > 0 && d > th {
 			continue
